@@ -7,7 +7,9 @@ Proof.
   all: try apply system_only_xlist.
   all: try match goal with H : apply_xattrs_any_order (?xs ++ dels_of ?d) _ ?ms ?c ?b = inl ?o |- _ => exact (fresh_xattrs_subset xs d ms c b o H) end.
   all: try match goal with H : apply_xattrs_any_order ?xs _ ?ms ?c ?b = inl ?o |- _ => exact (fresh_xattrs_subset0 xs ms c b o H) end.
-  all: match goal with H : apply_xattrs_any_order (?p :: ?l ++ []) None ?ms ?c ?b = inl ?o |- _ =>
+  all: try match goal with H : apply_xattrs_any_order (?p :: ?l ++ []) None ?ms ?c ?b = inl ?o |- _ =>
          rewrite app_nil_r in H; exact (fresh_xattrs_subset0 (p :: l) ms c b o H) end.
+  all: try (exfalso; match goal with H1 : is_some ?v = false, H2 : is_none ?v = false |- _ => destruct v; discriminate end).
+  all: try (exfalso; match goal with H1 : is_some ?v = true, H2 : is_none ?v = true |- _ => destruct v; discriminate end).
 Qed.
 
